@@ -51,7 +51,7 @@ FamDef(f) ==
           rk |-> {"plain", "cancel"} \cup (IF Deep THEN {"sys", "pipe", "p_func", "exit_endcancel", "errfunc"} ELSE {}),
           rc |-> {"c0", "c1", "c3", "c4"},
           lk |-> {"p_func", "errfunc", "sys", "pipe"},
-          lc |-> IF Deep THEN {"c0", "c1", "c3", "c4"} ELSE {"c0", "c4"},
+          lc |-> IF Deep THEN {"c0", "c1", "c4"} ELSE {"c0", "c4"},
           vs |-> IF Deep THEN Variants ELSE {"none", "both"}]
 
 VARIABLES st, h, open, fam
